@@ -60,7 +60,7 @@ func (c14) Batches(tier string, seed int64) int { return len(configs(tier)) }
 // corpus: every operator, both range kinds, open bounds, lists, patterns, prefixes, default field.
 func corpus(r *rand.Rand) []string {
 	qs := []string{
-		"a", "a:b", "a:5", "a:-2.5", `a:"it's"`, "a:b*", "a:?x*", "a:/re+/", "a:>5", "a:>=5", "a:<0.5", "a:<=-4", "a:[1 TO 5]", "a:{1 TO 5}", "a:[* TO 5]", "a:{2 TO *}",
+		"a", "a:b", "a:5", "a:-2.5", `a:"it's"`, "a:b*", "a:?x*", "a:foo*bar?baz", "title:intro*duction?", "longpattern*?", "a:/re+/", "a:>5", "a:>=5", "a:<0.5", "a:<=-4", "a:[1 TO 5]", "a:{1 TO 5}", "a:[* TO 5]", "a:{2 TO *}",
 		"a:[1.5 TO 2.5]", "a:[aa TO zz]", "a:(x OR y OR z)", "a:(x OR x OR y)", "a:(1 OR 2 OR 1 OR 3)", "a:(x OR y OR x)", "a:[5 TO 5]", "g:(x OR y OR z*)", "a:/C:\\\\/", "a:(1 OR 2.5 OR \"z z\")", "NOT a:b", "+a:b", "-a:b", "a~", "a~2", "a^", "a^2.5", "a:b AND c:d", "a:b OR c:d", "a:b c:d e:f",
 		"(a:foo OR b:bar) AND c:baz", "a OR b AND c:[* TO -1] OR d AND NOT +e:f", `title:"The Right Way" AND go`, "x (y OR z*) -w", "a:b^2 AND foo~", `foo\ bar:b`, `a:\(1\+1\)\:2`,
 		"(a AND b", "a:[1 TO", `a:"unterminated`, "a:!", "", "AND", `f"q:b`, strings.Repeat("z", 70) + ":b", "a:\x00", "a:\xff",
@@ -132,7 +132,50 @@ func runOp(op int, q string, shared *expr.Expression) (res string) {
 
 const nOps = 12
 
+var coldDone bool
+
+// coldStart makes the very first use of the package-level entry points in this process a
+// concurrent one (lazy initialisation races are invisible once a sequential call has run).
+func coldStart(ctx *core.Ctx) {
+	if coldDone {
+		return
+	}
+	coldDone = true
+	runtime.GOMAXPROCS(8)
+	qs := []string{"a:b", "a:b*", "a:[1 TO 5]", "x y", "a:(x OR y)"}
+	start := make(chan struct{})
+	var wg sync.WaitGroup
+	out := make([]string, 16)
+	for g := 0; g < 16; g++ {
+		wg.Add(1)
+		go func(g int) {
+			defer wg.Done()
+			<-start
+			q := qs[g%len(qs)]
+			a, _ := lucene.ToPostgres(q)
+			b, _, _ := lucene.ToParameterizedPostgres(q)
+			e, _ := lucene.Parse(q, lucene.WithDefaultField("d"))
+			out[g] = a + "|" + b + "|" + fmt.Sprintf("%#v", e)
+		}(g)
+	}
+	close(start)
+	wg.Wait()
+	ctx.Case("cold start: 16 goroutines make the first calls of the process", func() {
+		for g := range out {
+			q := qs[g%len(qs)]
+			a, _ := lucene.ToPostgres(q)
+			b, _, _ := lucene.ToParameterizedPostgres(q)
+			e, _ := lucene.Parse(q, lucene.WithDefaultField("d"))
+			ctx.Count("cold_start_comparisons", 1)
+			if want := a + "|" + b + "|" + fmt.Sprintf("%#v", e); out[g] != want {
+				ctx.Violate("c14:cold-start-result-differs", "first concurrent use on %q gave %q, later sequential use %q", q, out[g], want)
+			}
+		}
+	})
+}
+
 func (c14) RunBatch(ctx *core.Ctx, batch int) {
+	coldStart(ctx)
 	cfg := configs(ctx.Tier)[batch]
 	runtime.GOMAXPROCS(cfg.procs)
 	r := ctx.Rand("corpus")
